@@ -19,6 +19,63 @@ Check (C02_nonvacuous :
   Gok wit_D (wit_G (Call (Glob "f") ENil)) (wit_G (Call (Glob "f") ENil)) /\
   fst_opt (eval (prot wit_D) 20 (wit_G (Call (Glob "f") ENil)) [] (Add (Call (Glob "g") ENil) (Num 41)))
     = Some (Val (VNum 42))).
+From SV Require Import c02.Lift_C02.
+Check (C02_rewrites_preserve :
+  forall (D : defs) (L : ldefs) (M : amap), closed_defs D ->
+  forall n G G' ρ ρ' e e' r G1,
+    GX D L M G G' -> erel D L M ρ ρ' -> xrel D L M e e' ->
+    eval (xprot D M) n G ρ e = Some (r, G1) -> r <> Viol ->
+    exists r' G1', eval [] n G' ρ' e' = Some (r', G1') /\ rrel D L M r r' /\ GX D L M G1 G1').
+Check (C02_lift_preserves :
+  forall L n G G' ρ ρ' e e' r G1,
+  lift_spec L e e' -> GX [] L [] G G' -> erel [] L [] ρ ρ' ->
+  eval [] n G ρ e = Some (r, G1) -> r <> Viol ->
+  exists r' G1', eval [] n G' ρ' e' = Some (r', G1') /\ rrel [] L [] r r' /\ GX [] L [] G1 G1').
+Check (C02_lift_unsound_if_captures :
+  fst_opt (eval [] 20 [] [] lw_src) = Some (Val (VNum 1)) /\
+  fst_opt (eval [] 20 lw_G' [] lw_tgt) = Some Err).
+Check (C02_module_inline_preserves :
+  forall D M, closed_defs D -> tables_ok D [] M ->
+  forall k n G G' ρ ρ' e r G1,
+    GX D [] M G G' -> erel D [] M ρ ρ' ->
+    eval (xprot D M) n G ρ e = Some (r, G1) -> r <> Viol ->
+    exists r' G1', eval [] n G' ρ' (inline_rec k D (inline D (alias_subst M e))) = Some (r', G1') /\
+                   rrel D [] M r r' /\ GX D [] M G1 G1').
+Check (C02_module_inline_unsound_if_original_assigned :
+  fst_opt (eval [] 20 aw_G [] aw_prog) = Some (Val (VNum 0)) /\
+  fst_opt (eval [] 20 aw_G [] (alias_subst aw_M aw_prog)) = Some (Val (VNum 1)) /\
+  fst_opt (eval (xprot [] aw_M) 20 aw_G [] aw_prog) = Some Viol).
+Check (C02_inline_commutes_with_mangling :
+  forall (φ : string -> string), (forall a b, φ a = φ b -> a = b) ->
+  forall D, (forall e, inline (ren_defs φ D) (ren φ e) = ren φ (inline D e)) /\
+            (forall l, inlines (ren_defs φ D) (rens φ l) = rens φ (inlines D l))).
+Check (C02_config_irrelevant :
+  forall D M L, closed_defs D -> tables_ok D L M ->
+  forall (s_mod s75 : bool) (k : nat) e e3,
+    lift_spec L (stage2 D (stage1 M s_mod e)) e3 ->
+    let p := stage5 D k (stage4 D s75 (e3, L)) in
+    forall n G G' ρ ρ' r G1,
+      GX D (snd p) M G G' -> erel D (snd p) M ρ ρ' ->
+      eval (xprot D M) n G ρ e = Some (r, G1) -> r <> Viol ->
+      exists r' G1', eval [] n G' ρ' (fst p) = Some (r', G1') /\
+                     rrel D (snd p) M r r' /\ GX D (snd p) M G1 G1').
+Check (C02_lift_spec_identity :
+  forall e, lift_spec [] e e).
+Check (C02_config_nonvacuous :
+  closed_defs nv_D /\ tables_ok nv_D nv_L nv_M /\
+  lift_spec nv_L (stage2 nv_D (stage1 nv_M true nv_e)) nv_e3 /\
+  GX nv_D (snd (stage5 nv_D 8 (stage4 nv_D true (nv_e3, nv_L)))) nv_M nv_G nv_G' /\
+  fst_opt (eval (xprot nv_D nv_M) 30 nv_G [] nv_e) = Some (Val (VNum 12)) /\
+  fst_opt (eval [] 30 nv_G' [] (fst (stage5 nv_D 8 (stage4 nv_D true (nv_e3, nv_L))))) = Some (Val (VNum 12))).
 Print Assumptions C02_inline_preserves.
 Print Assumptions C02_inline_unsound_if_assigned.
 Print Assumptions C02_nonvacuous.
+Print Assumptions C02_rewrites_preserve.
+Print Assumptions C02_lift_preserves.
+Print Assumptions C02_lift_unsound_if_captures.
+Print Assumptions C02_module_inline_preserves.
+Print Assumptions C02_module_inline_unsound_if_original_assigned.
+Print Assumptions C02_inline_commutes_with_mangling.
+Print Assumptions C02_config_irrelevant.
+Print Assumptions C02_lift_spec_identity.
+Print Assumptions C02_config_nonvacuous.
